@@ -329,25 +329,47 @@ def concrete_extent(p):
 
 
 # ---------------------------------------------------------------------------- size cases
+class NeedDecision(Unsupported):
+    """the analysed code branches on whether a whole-array reduction (np.max / np.min of an input array with at least two
+    elements) is zero: the caller may analyse both outcomes"""
+
+    def __init__(self, key, text):
+        super().__init__("undecidable branch condition %s" % text)
+        self.key, self.text = key, text
+
+
 class SizeCase:
     """one ordering case of the grid sizes: assumptions `form > 0 (large)` plus substitutions `symbol := affine form` for the
-    equality branches (the symbol nx is never substituted: module-level constants of the oracles mention it)"""
+    equality branches (the symbol nx is never substituted: module-level constants of the oracles mention it); plus decisions
+    on data-dependent branch conditions of a recognised form (reduction symbol zero / non-zero)"""
 
-    def __init__(self, assume=(), subs=()):
+    def __init__(self, assume=(), subs=(), decisions=()):
         self.assume = tuple(assume)
         self.subs = tuple(subs)          # ((name, Bd), ...)
+        self.decisions = tuple(decisions)    # ((reduction symbol name, is_nonzero), ...)
 
     def label(self):
         parts = ["%r > 0" % (a,) for a in self.assume] + ["%s = %r" % (n, b) for n, b in self.subs]
+        parts += ["%s %s 0" % (n, "!=" if nz else "==") for n, nz in self.decisions]
         return ", ".join(parts)
 
     def depth(self):
-        return len(self.assume) + len(self.subs)
+        return len(self.assume) + len(self.subs) + len(self.decisions)
+
+    def decision(self, key):
+        for n, nz in self.decisions:
+            if n == key:
+                return nz
+        return None
+
+    def decide(self, key):
+        return [SizeCase(self.assume, self.subs, self.decisions + ((key, True),)),
+                SizeCase(self.assume, self.subs, self.decisions + ((key, False),))]
 
     def children(self, p):
         """the three refinements on the sign of p (p is undecided under this case)"""
         sym_part = Bd(0, p.s)
-        out = [SizeCase(self.assume + (sym_part,), self.subs), SizeCase(self.assume + (-sym_part,), self.subs)]
+        out = [SizeCase(self.assume + (sym_part,), self.subs, self.decisions), SizeCase(self.assume + (-sym_part,), self.subs, self.decisions)]
         # equality: solve p == 0 for a symbol (not nx) with coefficient +-1 and no constant offset problems
         cand = [(n, v) for n, v in p.s if n != "nx" and abs(v) == 1]
         if cand and p.c == 0:
@@ -371,7 +393,7 @@ class SizeCase:
                         break
                     new_assume.append(a2)
                 if feasible:
-                    out.append(SizeCase(new_assume, self.subs + ((n, rest),)))
+                    out.append(SizeCase(new_assume, self.subs + ((n, rest),), self.decisions))
         return out
 
 
@@ -387,6 +409,9 @@ def set_case(case):
     poly.SYM_SUBS.clear()
     for n, b in case.subs:
         poly.SYM_SUBS[n] = b.poly()
+    for n, nz in case.decisions:
+        if not nz:
+            poly.SYM_SUBS[n] = Poly()        # the reduction is zero on this path
     for reg in CASE_CACHES:
         reg.clear()
 
@@ -405,11 +430,17 @@ def run_under_size_cases(fn, opt_in, max_cases=27, max_depth=3):
             try:
                 done.append((case, fn(case)))
             except NeedCase as nc:
-                if not opt_in:
+                if opt_in is not True:
                     raise
                 if case.depth() >= max_depth or len(work) + len(done) >= max_cases:
                     raise Unsupported("too many size-ordering cases (last undecided form %r under [%s])" % (nc.p, case.label()))
                 work.extend(case.children(nc.p))
+            except NeedDecision as nd:
+                if not opt_in:
+                    raise
+                if case.depth() >= max_depth or len(work) + len(done) >= max_cases:
+                    raise Unsupported("too many cases (last undecided condition %s under [%s])" % (nd.text, case.label()))
+                work.extend(case.decide(nd.key))
     finally:
         set_case(SizeCase())
     return done
